@@ -51,9 +51,10 @@ def execute(req):
 
     try:
         seams.SIM.reset(req["segment"].get("sim", {}))
+        seams.SIM.ever_exceeded = False
         mod = get_check(req["check"])
         res = mod.run_segment(req["segment"])
-        if seams.SIM.budget_exceeded:
+        if seams.SIM.budget_exceeded or seams.SIM.ever_exceeded:
             return {"ok": False, "harness": "discard",
                     "detail": f"workload bound exceeded after {seams.SIM.solve_index} solves"}
         return {"ok": True, "result": res}
